@@ -17,6 +17,31 @@
 //
 // Used by harness/cmd/c27, c29 (and meant for c28).  Build tag: verif (hooks
 // /repo/weed/server/verif_s3env.go and /repo/weed/s3api/verif_s3env.go).
+//
+// API in short:
+//
+//	e := s3env.New(s3env.Options{AllowEmptyFolder, SaveToFilerLimit, MaxMB}); defer e.Close()
+//	e.Mkdir(path) / e.PutFile(path, content)   fixtures through Filer.CreateEntry (inline content)
+//	e.Wipe(dir)                                remove everything below dir on the raw store (also
+//	                                           entries written under unclean paths); clears the store log
+//	e.Do(method, rawTarget, headers, body)     one request through the S3 router; rawTarget is the
+//	                                           request target byte for byte ("/b/x/../y?tagging");
+//	                                           a handler panic gives Status 599
+//	e.DoFiler(method, rawTarget, body)         one request to the filer's ServeMux (no redirect following)
+//	e.Store.Take()                             FilerStore calls since the last Take: {Op, Path}
+//	e.TakeCalls()                              filer-facing calls since the last TakeCalls: gRPC
+//	                                           (Method, Directory, Name, flags) and HTTP (method, URL.Path
+//	                                           as decoded by the filer's listener, RawQuery)
+//	e.Snapshot(dir) / e.SnapshotString(dir)    the entries below dir read from the RAW store (not recorded)
+//	e.S3.VerifS3SetAllowEmptyFolder(b)         flip -allowEmptyFolder between requests
+//	e.Filer, e.FilerServer, e.Raw, e.Master    the real objects, for anything else
+//	e.Master.AssignFn                          plug volume assignment (C28); DeletedCollections records
+//	                                           CollectionDelete calls
+//	e.FilerHTTPAddr, e.FilerGrpcAddr           host:port of the in-process filer
+//
+// One Env per process; every listener is 127.0.0.1:<ephemeral>, all files under
+// os.TempDir().  Requests are served synchronously, so logs taken right after Do
+// belong to that request.
 package s3env
 
 import (
